@@ -7,3 +7,11 @@ import (
 )
 
 func TestC01(t *testing.T) { core.Run(t, P01) }
+
+func TestC05(t *testing.T) { core.Run(t, P05) }
+
+func TestC03(t *testing.T) { core.Run(t, P03) }
+
+func TestC04(t *testing.T) { core.Run(t, P04) }
+
+func TestC19(t *testing.T) { core.Run(t, P19) }
